@@ -1,6 +1,7 @@
 package rules
 
 import (
+	"fmt"
 	"strings"
 
 	. "htcheck/internal/core"
@@ -102,4 +103,69 @@ func c20FrameTrimmed(c *Ctx) {
 			c.Observe(rule, "udp.Unmarshal compares len(data) with its length field (premise)", p.Pos(uu.Pos()), "no exact-length test found any more: padding would be tolerated by the UDP parser")
 		}
 	}
+}
+
+// c20ReportWhenQuiet: a group is reported (and removed) once, after its burst has ended. Two shapes guarantee that:
+// (a) the reporting arm of the detector's select waits on a time.After(…) made anew in every iteration, so it only fires
+// after that long without ANY knock – every group is quiet then; or (b) every path to the report passes the group's own
+// inactivity test (Last + d is not after now). A periodic ticker combined with a path that skips the inactivity test
+// (the "more than 100 probes" shortcut) reports a burst while it is still going on and reports its remainder again later.
+func c20ReportWhenQuiet(c *Ctx) {
+	p := c.P
+	const rule = "report-only-when-quiet"
+	kd := p.Method(canaryRel, "Canary", "knockDetector")
+	if kd == nil {
+		return // anchored by the detector rule
+	}
+	fns := append([]*ssa.Function{kd}, Anon(kd)...)
+	// (a) an idle timer: a select arm receiving from time.After(...) called in the loop
+	idle := false
+	var where ssa.Instruction
+	for _, fn := range fns {
+		for _, b := range fn.Blocks {
+			for _, in := range b.Instrs {
+				sel, ok := in.(*ssa.Select)
+				if !ok {
+					continue
+				}
+				for _, st := range sel.States {
+					if st.Send != nil {
+						continue
+					}
+					if call, ok := st.Chan.(*ssa.Call); ok && CalleeIs(call, "time", "After") && InLoop(call.Block()) && sameLoop(call.Block(), sel.Block()) {
+						idle = true
+						where = sel
+					}
+				}
+			}
+		}
+	}
+	if idle {
+		c.Ok(rule, "knockDetector report arm", p.InstrPos(where), "fires only after a full interval without any knock (time.After re-armed by every iteration)")
+		return
+	}
+	// (b) every report is behind the group's inactivity test
+	n := 0
+	for _, fn := range fns {
+		for _, b := range fn.Blocks {
+			for _, in := range b.Instrs {
+				if !emitsEvent(in, 1) {
+					continue
+				}
+				n++
+				quiet := false
+				for _, dc := range DomConds(in) {
+					call, pol := condCall(dc)
+					if call != nil && !pol && MethodIs(call.Call.StaticCallee(), "time", "Time", "After") {
+						quiet = true
+					}
+					if call != nil && pol && MethodIs(call.Call.StaticCallee(), "time", "Time", "Before") {
+						quiet = true
+					}
+				}
+				c.Check(quiet, rule, fmt.Sprintf("%s report #%d", shortFn(fn), n), p.InstrPos(in), "behind the group's inactivity test", "the detector reports on a periodic tick, and this report can be reached without the group's inactivity test (Last+interval not after now) having held: a burst that is still going on is reported and removed, and its remaining probes are reported again as a second scan")
+			}
+		}
+	}
+	c.Check(n > 0, rule, "knockDetector reports", p.Pos(kd.Pos()), "", "no report site found in the detector")
 }
